@@ -54,7 +54,10 @@ pub fn check(case: &Case, prep: &Prepared, run: &Run) -> (Vec<Violation>, Facts)
     }
     let returned = run.result.status == ExecStatus::Returned;
     for c in &sim.children {
-        if c.killed {
+        // a prover killed after the clock anthem reads showed its time limit used up is anthem's right; before that it is not
+        let limit_ms = c.args.iter().position(|a| a == "--time_limit").and_then(|i| c.args.get(i + 1)).and_then(|v| v.parse::<u64>().ok()).map(|s| s * 1000);
+        let within = limit_ms.map(|l| c.killed_clock_ms.saturating_sub(c.spawn_clock_ms) < l).unwrap_or(true);
+        if c.killed && within {
             out.push(v("I6-prover-killed", format!("anthem killed prover #{} while it was still running ({}); its answer never arrived", c.ordinal, if c.output_blocked { "blocked because nobody was reading its output pipe" } else { "not blocked" })));
         }
     }
@@ -187,7 +190,9 @@ pub fn check(case: &Case, prep: &Prepared, run: &Run) -> (Vec<Violation>, Facts)
                 if last_marker != *i {
                     out.push(v("I5-verdict-not-last", format!("a '> ' line follows the verdict: {:?}", lines[last_marker])));
                 }
-                if *success != all_proven {
+                // an execution in which anthem killed a prover (after its limit) has no stated expectation for that prover
+                let any_killed = sim.children.iter().any(|c| c.killed);
+                if *success != all_proven && !any_killed {
                     let bad: Vec<String> = sim
                         .children
                         .iter()
